@@ -192,6 +192,31 @@ func init() {
 				add(cacheIn{Cache: true, Case: c, Thr: 2, Seed: 21, MissPct: 0, DropPct: 0})
 				add(cacheIn{Cache: true, Case: c, Thr: 2, Seed: 22, MissPct: 30, DropPct: 0})
 			}
+			// dedicated: a pattern keyword that is NOT valid UTF-8 inside conjunctions worth caching: the pattern
+			// holder's codec (protobuf) refuses it, so the whole conjunction must stay uncached -- a record written
+			// without that field would lose the pattern expression on the warm build.  Query texts stay valid UTF-8
+			// (the matcher's rune view of invalid bytes is outside the model).
+			for _, kind := range []string{"kgroups", "compact"} {
+				kws := func(inc bool, ss ...string) eExpr {
+					l := make([]TV, len(ss))
+					for i, s := range ss {
+						l[i] = tvStr(s)
+					}
+					return eExpr{F: 1, Inc: inc, V: tvSlice("[]string", l...)}
+				}
+				c := eCase{Kind: kind, Policy: "error", Configs: map[int]string{1: "ac_matcher"}}
+				c.Docs = []eDoc{
+					{ID: 1, Cons: []eConj{{kws(true, "re", "z\xff", "blue"), {F: 0, Inc: true, V: longInts(5)}}}},
+					{ID: 2, Cons: []eConj{{{F: 0, Inc: true, V: longInts(4)}, kws(false, "\xfe\xff", "red", "x y")}}},
+					{ID: 3, Cons: []eConj{{kws(true, "blue", "green", "\xc3", "re")}}},
+					{ID: 4, Cons: []eConj{{kws(true, "blue", "green", "é", "re"), {F: 0, Inc: true, V: longInts(3)}}}},
+				}
+				for _, t := range []string{"", "re", "blue", "z", "red", "x y", "green re", "é", "zz"} {
+					c.Queries = append(c.Queries, eQuery{A: []eAssign{{F: 1, V: tvStr(t)}}}, eQuery{A: []eAssign{{F: 1, V: tvStr(t)}, {F: 0, V: tvInt("int", 1)}}})
+				}
+				add(cacheIn{Cache: true, Case: c, Thr: 2, Seed: 31, MissPct: 0, DropPct: 0})
+				add(cacheIn{Cache: true, Case: c, Thr: 2, Seed: 32, MissPct: 30, DropPct: 0, Reuse: true})
+			}
 			for i := 0; i < n; i++ {
 				thr := []int{0, 2, 2}[i%3]
 				if i%9 == 2 { // the default threshold: lists of 520+ distinct values (slow in the model, so fewer)
